@@ -337,8 +337,15 @@ fn err_class(e: &CqlRequestSerializationError) -> String {
             _ => "err batch-other".into(),
         },
         E::SnapCompressError(_) => "err snap".into(),
-        E::BodyTooLong(n) => format!("err body-too-long {}", hex_u(*n as u128)),
-        _ => "err other".into(),
+        // BodyTooLong(size) exists only since /repo a9f519c: classified through its Debug text, without naming the
+        // variant, so that this runner also builds against a tree where the fix is reverted
+        other => {
+            let d = format!("{other:?}");
+            match d.strip_prefix("BodyTooLong(").and_then(|r| r.strip_suffix(')')).and_then(|n| n.parse::<u128>().ok()) {
+                Some(n) => format!("err body-too-long {}", hex_u(n)),
+                None => "err other".into(),
+            }
+        }
     }
 }
 
